@@ -747,9 +747,119 @@ GET_CONTENT_LENGTH = Spec(
 )
 
 
+# --- LimitedStream (wsgi.py): the wrapped stream is the model's `LS.Under` (remaining data + a
+# script of behaviours), threaded as state `self.u`; the caller's bytearray is handed back
+_LS = "wsgi.py"
+LS_IS_EXHAUSTED = Spec(module=_LS, qualname="LimitedStream.is_exhausted", name="ls_is_exhausted", params=[("self._pos", "Int"), ("self.limit", "Int")], result="Bool", decorators=["property"])
+LS_ON_EXHAUSTED = Spec(module=_LS, qualname="LimitedStream.on_exhausted", name="ls_on_exhausted", params=[("self._limit_is_max", "Bool")], result="Unit", raises=True)
+LS_ON_DISCONNECT = Spec(
+    module=_LS, qualname="LimitedStream.on_disconnect", name="ls_on_disconnect",
+    # `error: Exception | None`: only `is not None` is asked
+    params=[("self._limit_is_max", "Bool"), ("error", "Option Obj")], result="Unit", raises=True,
+)
+LS_TELL = Spec(module=_LS, qualname="LimitedStream.tell", name="ls_tell", params=[("self._pos", "Int")], result="Int")
+_LS_UNDER = [("self.u", "Wz.LS.Under")]
+py2lean.ABSTRACT_TYPES.add("Wz.LS.Under")
+_UNDER_TY = py2lean.Abs("Wz.LS.Under")
+LS_READINTO = Spec(
+    module=_LS,
+    qualname="LimitedStream.readinto",
+    name="ls_readinto",
+    opaque=[("has_readinto", "Bool")],  # hasattr(self._stream, "readinto")
+    params=[("self._pos", "Int"), ("self.limit", "Int"), ("self._limit_is_max", "Bool"), ("self.u", "Wz.LS.Under"), ("b", "Bytes")],
+    state=["_pos", "u", "b"],
+    result="Int",
+    raises=True,
+    static={"hasattr(self._stream, 'readinto')": None},
+    locals={"out_size": "Option Int"},
+    calls={
+        "self.on_exhausted": Fn("ls_on_exhausted", [], py2lean.NONE, raises=("RequestEntityTooLarge",), extra=("self__limit_is_max",)),
+        "self._stream.read": Fn("underRead", [INT], py2lean.BYTES, raises=("OSError",), effect_key="self.u", error_keeps_state=True),
+        "bytearray": Fn("Pre.bytearrayZeros", [INT], py2lean.BYTES),
+    },
+    patterns=[
+        (_src_matcher("hasattr(self._stream, 'readinto')"), Fn("has_readinto", [], BOOL)),
+        (_src_matcher("self.on_disconnect(error=e)"), Fn("ls_on_disconnect self__limit_is_max (some ())", [], py2lean.NONE, raises=("ClientDisconnected",))),
+        (_src_matcher("self.on_disconnect()"), Fn("ls_on_disconnect self__limit_is_max none", [], py2lean.NONE, raises=("ClientDisconnected",))),
+    ],
+    # `out_size = self._stream.readinto(buf)`: the underlying call answers the count and the new
+    # content of the buffer it was given (pinned by the exact source text of the two statements)
+    effects={
+        "out_size = self._stream.readinto(b)": [("r_", "under_readinto(b)"), ("out_size", "r_[0]"), ("b", "r_[1]")],
+        "out_size = self._stream.readinto(temp_b)": [("r_", "under_readinto(temp_b)"), ("out_size", "r_[0]"), ("temp_b", "r_[1]")],
+    },
+)
+LS_READINTO.calls["under_readinto"] = Fn("underReadinto", [py2lean.BYTES], Tup(Opt(INT), py2lean.BYTES), raises=("OSError",), effect_key="self.u", error_keeps_state=True)
+del LS_READINTO.static["hasattr(self._stream, 'readinto')"]
+
+
+_LS_KEYS = ("self._pos", "self.u")
+_LS_COMMON = dict(
+    module=_LS,
+    capture_self=True,
+    opaque=[("has_readinto", "Bool")],
+    state=["_pos", "u"],
+    raises=True,
+)
+_LS_PATTERNS = [
+    (_src_matcher("self.is_exhausted"), Fn("ls_is_exhausted self__pos self_limit", [], BOOL)),
+    (_src_matcher("bytearray()"), Fn("([] : Bytes)", [], py2lean.BYTES)),
+]
+LS_READALL = Spec(
+    qualname="LimitedStream.readall",
+    name="ls_readall",
+    params=[("self._pos", "Int"), ("self.u", "Wz.LS.Under"), ("self.limit", "Int"), ("self._limit_is_max", "Bool")],
+    result="Bytes",
+    calls={
+        "self.on_exhausted": Fn("ls_on_exhausted", [], py2lean.NONE, raises=("RequestEntityTooLarge",), extra=("self__limit_is_max",)),
+        # `self.read(n)` = io.RawIOBase.read: a fresh n-byte buffer, `readinto`, truncation (CPython glue, below)
+        "self.read": Fn("ls_raw_read has_readinto self_limit self__limit_is_max", [INT], py2lean.BYTES, raises=("RequestEntityTooLarge", "ClientDisconnected"), state=_LS_KEYS),
+        "bytes": Fn("id", [py2lean.BYTES], py2lean.BYTES),
+    },
+    patterns=_LS_PATTERNS,
+    **_LS_COMMON,
+)
+LS_EXHAUST = Spec(
+    qualname="LimitedStream.exhaust",
+    name="ls_exhaust",
+    params=[("self._pos", "Int"), ("self.u", "Wz.LS.Under"), ("self.limit", "Int"), ("self._limit_is_max", "Bool")],
+    result="Bytes",
+    calls={"self.readall": Fn("ls_readall fuel has_readinto", [], py2lean.BYTES, raises=("RequestEntityTooLarge", "ClientDisconnected"), state=_LS_KEYS, suffix=("self_limit", "self__limit_is_max"))},
+    patterns=_LS_PATTERNS,
+    needs_fuel=True,
+    **_LS_COMMON,
+)
+
+
 @generator("PyFns_Length")
 def gen_length():
-    return emit("Length", [GET_CONTENT_LENGTH], imports=["WzVerif.Gen.PyFns_Internal"])
+    extra = """/-- `self._stream.readinto(buf)` on the model's underlying stream: one call asking for `len(buf)`
+bytes; answers the count and the buffer with the bytes written to its front, or raises (OSError /
+ValueError) - the stream's state advances in both cases -/
+def underReadinto (u : Wz.LS.Under) (buf : Bytes) : Except String (Option Int × Bytes) × Wz.LS.Under :=
+  match u.call buf.length with
+  | (.raised, u') => (.error "OSError", u')
+  | (.got d, u') => (.ok (some (d.length : Int), d ++ buf.drop d.length), u')
+
+/-- `self._stream.read(n)` on the model's underlying stream -/
+def underRead (u : Wz.LS.Under) (n : Int) : Except String Bytes × Wz.LS.Under :=
+  match u.call n.toNat with
+  | (.raised, u') => (.error "OSError", u')
+  | (.got d, u') => (.ok d, u')
+
+"""
+    glue = """/-- `io.RawIOBase.read(n)` for `n >= 0` (CPython's C implementation: `b = bytearray(n)`,
+`n = self.readinto(b)`, `del b[n:]`, `return bytes(b)`) on top of the translated `readinto`; modelled,
+not verified. State: `(_pos, u)` -/
+def ls_raw_read (has_readinto : Bool) (self_limit : Int) (self__limit_is_max : Bool) (self__pos : Int) (self_u : Wz.LS.Under)
+    (n : Int) : (Int × Wz.LS.Under) × Except String Bytes :=
+  let r := ls_readinto has_readinto self__pos self_limit self__limit_is_max self_u (Pre.bytearrayZeros n)
+  ((r.1.1, r.1.2.1), match r.2 with
+    | .error e => .error e
+    | .ok k => .ok (r.1.2.2.take k.toNat))
+
+"""
+    return emit_parts("Length", [[GET_CONTENT_LENGTH], extra, [LS_IS_EXHAUSTED, LS_ON_EXHAUSTED, LS_ON_DISCONNECT, LS_TELL, LS_READINTO], glue, [LS_READALL, LS_EXHAUST]], imports=["WzVerif.Gen.PyFns_Internal", "WzVerif.Model.LimitedStream"])
 
 
 # --------------------------------------------------------------------------
@@ -1767,9 +1877,176 @@ LAST_NEWLINE = Spec(
 )
 
 
+RECEIVE_DATA = Spec(
+    module="sansio/multipart.py",
+    qualname="MultipartDecoder.receive_data",
+    name="receive_data",
+    params=[("self.complete", "Bool"), ("self.buffer", "Bytes"), ("self.max_form_memory_size", "Option Int"), ("data", "Option Bytes")],
+    state=["complete", "buffer"],
+    result="Unit",
+    raises=True,
+    effects={"self.buffer.extend(data)": [("self.buffer", "self.buffer + data")]},
+)
+
+
 @generator("PyFns_Multipart")
 def gen_multipart():
-    return emit("Multipart", [LAST_NEWLINE])
+    return emit("Multipart", [LAST_NEWLINE, RECEIVE_DATA])
+
+
+# --------------------------------------------------------------------------
+# C02: multipart encoder (`MultipartEncoder.send_event`, one translation per event class: the
+# `isinstance` tests are decided by the declared class of `event`)
+
+_MP = "sansio/multipart.py"
+py2lean.ABSTRACT_TYPES.add("Wz.Multipart.State")
+_MP_STATE = "Wz.Multipart.State"
+_MP_HEADERS = "List (Str × Str)"
+_EV_RECS = {
+    "Preamble": py2lean.record("Preamble", [("data", "Bytes")]),
+    "Field": py2lean.record("Field", [("name", "Str"), ("headers", _MP_HEADERS)]),
+    "File": py2lean.record("File", [("name", "Str"), ("filename", "Str"), ("headers", _MP_HEADERS)]),
+    "Data": py2lean.record("Data", [("data", "Bytes"), ("more_data", "Bool")]),
+    "Epilogue": py2lean.record("Epilogue", [("data", "Bytes")]),
+}
+_EV_LEAN = {
+    "Preamble": "Pre.Bytes",
+    "Field": "Pre.Str × List (Pre.Str × Pre.Str)",
+    "File": "Pre.Str × Pre.Str × List (Pre.Str × Pre.Str)",
+    "Data": "Pre.Bytes × Bool",
+    "Epilogue": "Pre.Bytes",
+}
+
+
+def send_event_spec(kind):
+    return Spec(
+        module=_MP,
+        qualname="MultipartEncoder.send_event",
+        name="send_event_" + kind.lower(),
+        params=[("self.boundary", "Bytes"), ("self.state", _MP_STATE), ("event", kind)],
+        state=["state"],
+        result="Bytes",
+        raises=True,
+        eq_types=[_MP_STATE],
+        static={
+            "isinstance(event, Preamble)": kind == "Preamble",
+            "isinstance(event, (Field, File))": kind in ("Field", "File"),
+            "isinstance(event, File)": kind == "File",
+            "isinstance(event, Data)": kind == "Data",
+            "isinstance(event, Epilogue)": kind == "Epilogue",
+        },
+        consts={
+            "State.PREAMBLE": ("Wz.Multipart.State.preamble", _MP_STATE),
+            "State.PART": ("Wz.Multipart.State.part", _MP_STATE),
+            "State.DATA_START": ("Wz.Multipart.State.dataStart", _MP_STATE),
+            "State.DATA": ("Wz.Multipart.State.data", _MP_STATE),
+            "State.COMPLETE": ("Wz.Multipart.State.complete", _MP_STATE),
+        },
+        patterns=[(_src_matcher("t.cast(Field, event)"), Fn("event", [], _EV_RECS[kind]))],
+        doc=f"`MultipartEncoder.send_event(event)` of src/werkzeug/sansio/multipart.py for a `{kind}` event, translated by tools/py2lean.py",
+    )
+
+
+SEND_EVENT_PREAMBLE = send_event_spec("Preamble")
+SEND_EVENT_FIELD = send_event_spec("Field")
+SEND_EVENT_FILE = send_event_spec("File")
+SEND_EVENT_DATA = send_event_spec("Data")
+SEND_EVENT_EPILOGUE = send_event_spec("Epilogue")
+
+
+@generator("PyFns_Encoder")
+def gen_encoder():
+    return emit_parts("Encoder", [[SEND_EVENT_PREAMBLE, SEND_EVENT_FIELD, SEND_EVENT_FILE, SEND_EVENT_DATA, SEND_EVENT_EPILOGUE]], imports=("WzVerif.Model.Multipart",))
+
+
+# --------------------------------------------------------------------------
+# C12: the redirect URL glue of `MapAdapter` (routing/map.py)
+
+_MAP = "routing/map.py"
+ADAPTER_GET_HOST = Spec(
+    module=_MAP,
+    qualname="MapAdapter.get_host",
+    name="adapter_get_host",
+    params=[("self.map.host_matching", "Bool"), ("self.server_name", "Str"), ("self.subdomain", "Option Str"), ("domain_part", "Option Str")],
+    result="Str",
+)
+_GET_HOST_FN = Fn("adapter_get_host self_map_host_matching_ self_server_name self_subdomain", [Opt(STR)], STR)
+
+
+def _urlunsplit5(node):
+    """`urlunsplit((scheme, netloc, path, query, None))`: the first four components (no fragment)"""
+    import ast
+
+    if (isinstance(node, ast.Call) and isinstance(node.func, ast.Name) and node.func.id == "urlunsplit" and len(node.args) == 1 and not node.keywords
+            and isinstance(node.args[0], ast.Tuple) and len(node.args[0].elts) == 5
+            and isinstance(node.args[0].elts[4], ast.Constant) and node.args[0].elts[4].value is None):
+        return list(node.args[0].elts[:4])
+    return None
+
+
+def make_redirect_url_spec(kind):
+    """`query_args` is `Mapping | str | None`: one translation per class (`str`: kind = "Str"; a
+    mapping, handed over as the list of pairs `_urlencode` iterates: kind = "Pairs")"""
+    qa_ty = {"Str": "Option Str", "Pairs": "Option (List (Str × Str))"}[kind]
+    return Spec(
+        module=_MAP,
+        qualname="MapAdapter.make_redirect_url",
+        name="make_redirect_url_" + kind.lower(),
+        # `urlunsplit((scheme, host, path, query, None))` (urllib) and `_urlencode` stay parameters
+        opaque=[("urlunsplit", "Pre.Str → Pre.Str → Pre.Str → Option Pre.Str → Pre.Str"), ("urlencode", "List (Pre.Str × Pre.Str) → Pre.Str")],
+        params=[
+            ("self.map.host_matching", "Bool"), ("self.server_name", "Str"), ("self.subdomain", "Option Str"),
+            ("self.url_scheme", "Str"), ("self.script_name", "Str"), ("self.query_args", qa_ty),
+            ("path_info", "Str"), ("query_args", qa_ty), ("domain_part", "Option Str"),
+        ],
+        result="Str",
+        calls={
+            "self.get_host": _GET_HOST_FN,
+            "self.encode_query_args": Fn("encode_query_args_str" if kind == "Str" else "encode_query_args_pairs urlencode", [STR if kind == "Str" else py2lean.Lst(Tup(STR, STR))], STR),
+        },
+        patterns=[
+            (_urlunsplit5, Fn("urlunsplit", [STR, STR, STR, Opt(STR)], STR)),
+        ],
+        doc=f"`MapAdapter.make_redirect_url(path_info, query_args, domain_part)` of src/werkzeug/routing/map.py for {'a `str`' if kind == 'Str' else 'a mapping (list of pairs)'} `query_args` (or None), translated by tools/py2lean.py",
+    )
+
+
+def make_alias_redirect_url_spec(kind):
+    return Spec(
+        module=_MAP,
+        qualname="MapAdapter.make_alias_redirect_url",
+        name="make_alias_redirect_url_" + kind.lower(),
+        # `self.build(endpoint, values, method, append_unknown=False, force_external=True)` stays a
+        # parameter (the canonical URL, or the BuildError it raises)
+        opaque=[("built", "Except String Pre.Str")] + ([("urlencode", "List (Pre.Str × Pre.Str) → Pre.Str")] if kind == "Pairs" else []),
+        params=[("path", "Str"), ("endpoint", "Unit"), ("values", "Unit"), ("method", "Unit"), ("query_args", "Str" if kind == "Str" else "List (Str × Str)")],
+        result="Str",
+        raises=True,
+        calls={"self.encode_query_args": Fn("encode_query_args_str" if kind == "Str" else "encode_query_args_pairs urlencode", [STR if kind == "Str" else py2lean.Lst(Tup(STR, STR))], STR)},
+        patterns=[(_src_matcher("self.build(endpoint, values, method, append_unknown=False, force_external=True)"), Fn("built", [], STR, raises=("BuildError",)))],
+        doc=f"`MapAdapter.make_alias_redirect_url(path, endpoint, values, method, query_args)` of src/werkzeug/routing/map.py for {'a `str`' if kind == 'Str' else 'a mapping (list of pairs)'} `query_args`, translated by tools/py2lean.py",
+    )
+
+
+MAKE_ALIAS_REDIRECT_URL_STR = make_alias_redirect_url_spec("Str")
+MAKE_ALIAS_REDIRECT_URL_PAIRS = make_alias_redirect_url_spec("Pairs")
+MAKE_REDIRECT_URL_STR = make_redirect_url_spec("Str")
+MAKE_REDIRECT_URL_PAIRS = make_redirect_url_spec("Pairs")
+ENCODE_QUERY_ARGS_STR = Spec(
+    module=_MAP, qualname="MapAdapter.encode_query_args", name="encode_query_args_str",
+    params=[("query_args", "Str")], result="Str", static={"isinstance(query_args, str)": True},
+)
+ENCODE_QUERY_ARGS_PAIRS = Spec(
+    module=_MAP, qualname="MapAdapter.encode_query_args", name="encode_query_args_pairs",
+    opaque=[("urlencode", "List (Pre.Str × Pre.Str) → Pre.Str")],
+    params=[("query_args", "List (Str × Str)")], result="Str", static={"isinstance(query_args, str)": False},
+    calls={"_urlencode": Fn("urlencode", [py2lean.Lst(Tup(STR, STR))], STR)},
+)
+
+
+@generator("PyFns_RoutingUrl")
+def gen_routing_url():
+    return emit_parts("RoutingUrl", [[ADAPTER_GET_HOST, ENCODE_QUERY_ARGS_STR, ENCODE_QUERY_ARGS_PAIRS, MAKE_REDIRECT_URL_STR, MAKE_REDIRECT_URL_PAIRS, MAKE_ALIAS_REDIRECT_URL_STR, MAKE_ALIAS_REDIRECT_URL_PAIRS]])
 
 
 # --------------------------------------------------------------------------
